@@ -12,6 +12,10 @@
 //	                      build a gmqtt.Message directly (byte fields: - = nil, x<hex> = non-nil), TotalBytes vs Pack
 //	alloc <3|4|5> <hex>   heap bytes allocated by one ReadPacket, as a class
 //	stream <hex>          ReadPacket in a loop on one Reader (version switches on CONNECT)
+//	keep <3|4|5> <hex>,<hex>,…   decode every packet and KEEP it alive while later packets are decoded, all kept packets are
+//	                      packed again and again and filler packets are decoded/packed (everything that takes buffers from
+//	                      the package's pool); only then dump + re-encode all of them. Answer = the `dec` answers joined by " | ":
+//	                      decoded packets must not alias memory that later codec calls reuse.
 package main
 
 import (
@@ -235,8 +239,86 @@ func (d *codecDrv) dec(ver byte, data []byte) string {
 	if err != nil {
 		return fmt.Sprintf("err:%s consumed=%d", errClass(err), consumed)
 	}
+	return d.report(ver, p, consumed, packets.TotalBytes(p))
+}
+
+// filler: a v5 PUBLISH with a property block and a recognisable payload, and its encoding
+func filler(fill byte, n int) (*packets.Publish, []byte) {
+	one := byte(1)
+	alias := uint16(9)
+	pl := bytes.Repeat([]byte{fill}, n)
+	p := &packets.Publish{Version: packets.Version5, Qos: 1, PacketID: 0x5a5a, TopicName: bytes.Repeat([]byte{fill & 0x5f | 0x40}, 24),
+		Payload: pl, Properties: &packets.Properties{PayloadFormat: &one, TopicAlias: &alias, ContentType: bytes.Repeat([]byte{'Q'}, 40),
+			CorrelationData: bytes.Repeat([]byte{fill}, 33), User: []packets.UserProperty{{K: bytes.Repeat([]byte{'k'}, 17), V: bytes.Repeat([]byte{'v'}, 19)}}}}
+	b, _ := pack(p)
+	return p, b
+}
+
+// churn makes the codec take and release pooled buffers of several sizes, overwriting whatever they held
+func churn(kept []packets.Packet) {
+	for _, q := range kept {
+		if q != nil {
+			pack(q)
+		}
+	}
+	for i, n := range []int{0, 7, 64, 300, 5000} {
+		fp, fb := filler(byte(0xA0+i), n)
+		pack(fp)
+		for _, v := range []byte{packets.Version5, packets.Version311} {
+			if q, err, _ := readOne(v, fb); err == nil {
+				pack(q)
+			}
+		}
+	}
+	for _, raw := range [][]byte{
+		{0x10, 0x13, 0, 4, 'M', 'Q', 'T', 'T', 5, 2, 0, 60, 5, 0x11, 0xee, 0xee, 0xee, 0xee, 0, 1, 'z'},
+		{0x82, 0x0b, 0x12, 0x34, 0x00, 0, 5, 'e', 'e', '/', 'e', 'e', 1},
+		{0xa2, 0x0a, 0x12, 0x34, 0x00, 0, 5, 'e', 'e', '/', 'e', 'e'},
+		{0x40, 0x0a, 0x12, 0x34, 0x10, 0x06, 0x1f, 0, 3, 'e', 'e', 'e'},
+		{0xe0, 0x09, 0x04, 0x07, 0x1f, 0, 4, 'e', 'e', 'e', 'e'},
+	} {
+		if q, err, _ := readOne(packets.Version5, raw); err == nil {
+			pack(q)
+		}
+	}
+}
+
+type keptPacket struct {
+	p        packets.Packet
+	err      error
+	consumed int
+	size0    uint32
+}
+
+func (d *codecDrv) keep(ver byte, datas [][]byte) string {
+	var ks []keptPacket
+	var live []packets.Packet
+	for _, data := range datas {
+		p, err, consumed := readOne(ver, data)
+		k := keptPacket{p: p, err: err, consumed: consumed}
+		if err == nil {
+			k.size0 = packets.TotalBytes(p)
+			live = append(live, p)
+		}
+		ks = append(ks, k)
+		churn(live)
+	}
+	churn(live)
+	churn(live)
+	var out []string
+	for _, k := range ks {
+		if k.err != nil {
+			out = append(out, fmt.Sprintf("err:%s consumed=%d", errClass(k.err), k.consumed))
+		} else {
+			out = append(out, d.report(ver, k.p, k.consumed, k.size0))
+		}
+	}
+	return "keep " + strings.Join(out, " | ")
+}
+
+// report: canonical dump, Pack, TotalBytes, re-decode of what Pack wrote
+func (d *codecDrv) report(ver byte, p packets.Packet, consumed int, size0 uint32) string {
 	d0 := dump(p)
-	size0 := packets.TotalBytes(p)
 	out, perr := pack(p)
 	if perr != nil {
 		return fmt.Sprintf("ok %s consumed=%d size0=%d packerr:%s", d0, consumed, size0, errClass(perr))
@@ -283,6 +365,23 @@ func (d *codecDrv) Step(line string) string {
 		return "bad-op"
 	}
 	switch f[0] {
+	case "keep":
+		if len(f) != 3 {
+			return "bad-op"
+		}
+		ver, ok := verOf(f[1])
+		if !ok {
+			return "bad-op"
+		}
+		var datas [][]byte
+		for _, h := range strings.Split(f[2], ",") {
+			b, err := unhex(h)
+			if err != nil {
+				return "bad-op"
+			}
+			datas = append(datas, b)
+		}
+		return d.keep(ver, datas)
 	case "dec", "msg", "alloc":
 		if len(f) != 3 {
 			return "bad-op"
